@@ -1,7 +1,8 @@
 SPECIFICATION TraceSpec
 CONSTANTS
   CheckOutsideLock = FALSE
-  WithHolder = {TRUE}
+  InitUnderReadLock = FALSE
+  Modes = {"plain"}
 INVARIANTS Verdicts Drift
 POSTCONDITION Accepted
 CHECK_DEADLOCK FALSE
